@@ -113,8 +113,7 @@ def variants(obj, rng, pool, per_field=8, others=(), depth=0):
                 yield ('%s%s' if label.startswith('.') else '%s=%s') % (f.name, label), fresh
             except Exception:  # pylint: disable=broad-except
                 continue
-            if depth == 0 and twins < 2 and not label.startswith('.') and all(g.init for g in attr.fields(cls)):
-                # (classes with derived fields computed at construction are left out: assignment cannot keep those in step)
+            if depth == 0 and twins < 2 and not label.startswith('.'):
                 # the same object reached by another history: observe the original first (compose, fingerprints, key tag,
                 # serialisation - whatever it offers), THEN assign the field.  An object is its field values, so this twin
                 # has to behave exactly like the freshly constructed variant (no stale memoised result).
@@ -122,7 +121,13 @@ def variants(obj, rng, pool, per_field=8, others=(), depth=0):
                     twin = _observed_then_assigned(obj, f.name, getattr(fresh, f.name))
                 except Exception:  # pylint: disable=broad-except
                     twin = None
-                if twin is not None:
+                try:
+                    # field for field the same object as the fresh one (a constructor that derives other fields from the
+                    # assigned one, or adjusts them, gives a twin that is NOT the same value: left out)
+                    same = twin is not None and twin == fresh and type(twin) is type(fresh)
+                except Exception:  # pylint: disable=broad-except
+                    same = False
+                if same:
                     twins += 1
                     yield 'assigned-after-observing:%s=%s' % (f.name, label), twin
     if depth == 0:
